@@ -153,6 +153,76 @@ Lemma get_lines_nr N st (R : RI N st) a b indent keep :
   0 <= a -> b <= N -> (keep = true -> a < b -> keep_ok st (b - 1)) -> nr (get_lines st a b indent keep).
 Proof. intros H0 HE HK. unfold get_lines. destruct (b <=? a); [apply nr_ok|]. apply (get_lines_loop_nr N st R); assumption. Qed.
 
+(* ---- writing saved table entries back gives the original table ---- *)
+Lemma tb_ext (l l' : list Z) : len l = len l' -> (forall j, 0 <= j < len l -> tb l j = tb l' j) -> l = l'.
+Proof.
+  revert l'. induction l as [|x l IH]; intros [|y l'] HL H; try reflexivity; try (unfold len in HL; cbn in HL; lia).
+  assert (H0 := H 0 ltac:(rewrite len_cons; pose proof (len_nonneg l); lia)). rewrite !tb_nonneg in H0 by lia. cbn in H0. injection H0 as ->.
+  f_equal. apply IH; [rewrite !len_cons in HL; lia|]. intros j Hj.
+  specialize (H (j + 1) ltac:(rewrite len_cons; lia)). rewrite !tb_nonneg in * by lia.
+  replace (Z.to_nat (j + 1)) with (S (Z.to_nat j)) in H by lia. exact H.
+Qed.
+
+(* T differs from T0 only on [lo, hi); S holds T0's entries of that range *)
+Definition sv_tab (T T0 S : list Z) (lo hi : Z) : Prop :=
+  len T = len T0 /\ (forall j, 0 <= j -> j < lo \/ hi <= j -> tb T j = tb T0 j)
+  /\ len S = hi - lo /\ (forall i, 0 <= i < hi - lo -> tb S i = tb T0 (lo + i)).
+
+Lemma sv_tab_init T lo : sv_tab T T [] lo lo.
+Proof. split; [reflexivity|]. split; [reflexivity|]. split; [unfold len; cbn; lia|]. intros i Hi. lia. Qed.
+
+(* save the entry of line hi, then (maybe) overwrite it *)
+Lemma sv_tab_step T T0 S lo hi v T' x : sv_tab T T0 S lo hi -> 0 <= lo <= hi -> tb T hi = Ok x ->
+  (T' = T \/ tb_set T hi v = Ok T') -> sv_tab T' T0 (S ++ [x]) lo (hi + 1).
+Proof.
+  intros (L & OO & LS & V) Hh Ex HT. pose proof (len_nonneg S).
+  assert (LT : len T' = len T /\ forall j, 0 <= j -> j <> hi -> tb T' j = tb T j).
+  { destruct HT as [->|HS]; [split; [reflexivity | intros; reflexivity]|]. destruct (tb_set_spec _ _ _ _ HS ltac:(lia)) as (_ & A & B). split; assumption. }
+  destruct LT as [LT OT].
+  split; [lia|]. split.
+  - intros j Hj Hr. rewrite OT by lia. apply OO; lia.
+  - split; [rewrite len_app; unfold len at 2; cbn; lia|]. intros i Hi.
+    destruct (Z.eq_dec i (hi - lo)) as [->|Ni].
+    + replace (lo + (hi - lo)) with hi by lia. rewrite tb_nonneg by lia. rewrite nth_error_app2 by (unfold len in LS; lia).
+      replace (Z.to_nat (hi - lo) - length S)%nat with 0%nat by (unfold len in LS; lia). cbn. rewrite <- Ex. apply OO; lia.
+    + rewrite <- V by lia. rewrite !tb_nonneg by lia. rewrite nth_error_app1 by (unfold len in LS; lia). reflexivity.
+Qed.
+
+(* sequential write-back *)
+Fixpoint put_all (T : list Z) (line : Z) (vals : list Z) : res (list Z) :=
+  match vals with [] => Ok T | v :: r => do T1 <- tb_set T line v; put_all T1 (line + 1) r end.
+
+Lemma put_all_spec : forall vals T line T', put_all T line vals = Ok T' -> 0 <= line ->
+  len T' = len T /\ (forall j, 0 <= j -> j < line \/ line + len vals <= j -> tb T' j = tb T j)
+  /\ (forall i, 0 <= i < len vals -> tb T' (line + i) = tb vals i).
+Proof.
+  induction vals as [|v r IH]; intros T line T' H Hl; cbn [put_all] in H.
+  - injection H as <-. split; [reflexivity|]. split; [reflexivity|]. intros i Hi. unfold len in Hi. cbn in Hi. lia.
+  - destruct (tb_set T line v) as [T1|?|] eqn:E; cbn [bind] in H; try discriminate H.
+    destruct (tb_set_spec _ _ _ _ E Hl) as (V1 & O1 & L1). destruct (IH _ _ _ H ltac:(lia)) as (L2 & O2 & V2).
+    rewrite len_cons. pose proof (len_nonneg r). split; [lia|]. split.
+    + intros j Hj Hr. rewrite O2 by lia. apply O1; lia.
+    + intros i Hi. destruct (Z.eq_dec i 0) as [->|Ni].
+      * rewrite Z.add_0_r. rewrite O2 by lia. rewrite V1. rewrite tb_nonneg by lia. reflexivity.
+      * replace (line + i) with (line + 1 + (i - 1)) by lia. rewrite V2 by lia. rewrite !tb_nonneg by lia.
+        replace (Z.to_nat i) with (S (Z.to_nat (i - 1))) by lia. reflexivity.
+Qed.
+
+Lemma put_all_restores T T0 S lo hi T' : sv_tab T T0 S lo hi -> 0 <= lo <= hi -> put_all T lo S = Ok T' -> T' = T0.
+Proof.
+  intros (L & OO & LS & V) Hh H. destruct (put_all_spec _ _ _ _ H ltac:(lia)) as (L' & O' & V').
+  apply tb_ext; [lia|]. intros j Hj.
+  destruct (Z_lt_le_dec j lo) as [A|A]; [rewrite O' by lia; apply OO; lia|].
+  destruct (Z_lt_le_dec j hi) as [B|B]; [|rewrite O' by lia; apply OO; lia].
+  replace j with (lo + (j - lo)) by lia. rewrite V' by lia. apply V. lia.
+Qed.
+
+Lemma tb_set_back T i v T1 x T2 : tb_set T i v = Ok T1 -> tb T i = Ok x -> tb_set T1 i x = Ok T2 -> 0 <= i -> T2 = T.
+Proof.
+  intros A B C Hi. destruct (tb_set_spec _ _ _ _ A Hi) as (V1 & O1 & L1). destruct (tb_set_spec _ _ _ _ C Hi) as (V2 & O2 & L2).
+  apply tb_ext; [lia|]. intros j Hj. destruct (Z.eq_dec j i) as [->|N]; [rewrite V2; symmetry; exact B|]. rewrite O2 by lia. apply O1; lia.
+Qed.
+
 (* ---- leaf rules ---- *)
 Section Rules.
 Context (cfg : bcfg) (rf cf : str -> str).
@@ -715,6 +785,76 @@ Proof.
     split; [exact A|]. repeat split; assumption.
 Qed.
 
+(* the four rewritten tables against their originals *)
+Definition sv4 (st st0 : bstate) (sv : saved) (lo hi : Z) : Prop :=
+  sv_tab (b_bMarks st) (b_bMarks st0) (o_b sv) lo hi /\ sv_tab (b_bsCount st) (b_bsCount st0) (o_bs sv) lo hi
+  /\ sv_tab (b_tShift st) (b_tShift st0) (o_ts sv) lo hi /\ sv_tab (b_sCount st) (b_sCount st0) (o_sc sv) lo hi.
+
+Lemma sv4_same st st' st0 sv lo hi :
+  b_bMarks st' = b_bMarks st -> b_bsCount st' = b_bsCount st -> b_tShift st' = b_tShift st -> b_sCount st' = b_sCount st ->
+  sv4 st st0 sv lo hi -> sv4 st' st0 sv lo hi.
+Proof. intros A B C D H. unfold sv4. rewrite A, B, C, D. exact H. Qed.
+
+Lemma restore_is_put_all : forall ts st line b bs sc st', restore_tables st line b bs ts sc = Ok st' ->
+  length b = length ts -> length bs = length ts -> length sc = length ts ->
+  put_all (b_bMarks st) line b = Ok (b_bMarks st') /\ put_all (b_bsCount st) line bs = Ok (b_bsCount st')
+  /\ put_all (b_tShift st) line ts = Ok (b_tShift st') /\ put_all (b_sCount st) line sc = Ok (b_sCount st').
+Proof.
+  induction ts as [|t ts IH]; intros st line b bs sc st' H Lb Lbs Lsc.
+  - destruct b; [|discriminate Lb]. destruct bs; [|discriminate Lbs]. destruct sc; [|discriminate Lsc].
+    cbn [restore_tables] in H. injection H as <-. repeat split.
+  - destruct b as [|x b]; [discriminate Lb|]. destruct bs as [|y bs]; [discriminate Lbs|]. destruct sc as [|s sc]; [discriminate Lsc|].
+    cbn [restore_tables] in H.
+    destruct (tb_set (b_bMarks st) line x) as [bm|?|] eqn:E1; cbn [bind] in H; try discriminate H.
+    destruct (tb_set (b_tShift st) line t) as [tsl|?|] eqn:E2; cbn [bind] in H; try discriminate H.
+    destruct (tb_set (b_sCount st) line s) as [scl|?|] eqn:E3; cbn [bind] in H; try discriminate H.
+    destruct (tb_set (b_bsCount st) line y) as [bsl|?|] eqn:E4; cbn [bind] in H; try discriminate H.
+    apply IH in H; [|cbn in Lb; lia|cbn in Lbs; lia|cbn in Lsc; lia]. cbn in H. destruct H as (A & B & C & D).
+    cbn [put_all]. rewrite E1, E2, E3, E4. cbn [bind]. repeat split; assumption.
+Qed.
+
+Lemma save_line_vals sv st line sv' : save_line sv st line = Ok sv' ->
+  exists b bs t sc, tb (b_bMarks st) line = Ok b /\ tb (b_bsCount st) line = Ok bs /\ tb (b_tShift st) line = Ok t /\ tb (b_sCount st) line = Ok sc
+    /\ o_b sv' = o_b sv ++ [b] /\ o_bs sv' = o_bs sv ++ [bs] /\ o_ts sv' = o_ts sv ++ [t] /\ o_sc sv' = o_sc sv ++ [sc].
+Proof.
+  unfold save_line. intros H.
+  destruct (tb (b_bMarks st) line) as [b|?|] eqn:E1; cbn [bind] in H; try discriminate H.
+  destruct (tb (b_bsCount st) line) as [bs|?|] eqn:E2; cbn [bind] in H; try discriminate H.
+  destruct (tb (b_tShift st) line) as [t|?|] eqn:E3; cbn [bind] in H; try discriminate H.
+  destruct (tb (b_sCount st) line) as [sc|?|] eqn:E4; cbn [bind] in H; try discriminate H.
+  injection H as <-. exists b, bs, t, sc. repeat split.
+Qed.
+
+(* save line hi, then rewrite (some of) its entries *)
+Lemma sv4_step st st0 sv lo hi sv' st' v1 v2 v3 v4 :
+  sv4 st st0 sv lo hi -> 0 <= lo <= hi -> save_line sv st hi = Ok sv' ->
+  (b_bMarks st' = b_bMarks st \/ tb_set (b_bMarks st) hi v1 = Ok (b_bMarks st')) ->
+  (b_bsCount st' = b_bsCount st \/ tb_set (b_bsCount st) hi v2 = Ok (b_bsCount st')) ->
+  (b_tShift st' = b_tShift st \/ tb_set (b_tShift st) hi v3 = Ok (b_tShift st')) ->
+  (b_sCount st' = b_sCount st \/ tb_set (b_sCount st) hi v4 = Ok (b_sCount st')) ->
+  sv4 st' st0 sv' lo (hi + 1).
+Proof.
+  intros (A & B & C & D) Hh SL H1 H2 H3 H4.
+  destruct (save_line_vals _ _ _ _ SL) as (b & bs & t & sc & E1 & E2 & E3 & E4 & O1 & O2 & O3 & O4).
+  unfold sv4. rewrite O1, O2, O3, O4. split; [|split; [|split]].
+  - eapply (sv_tab_step _ _ _ _ _ v1); eassumption.
+  - eapply (sv_tab_step _ _ _ _ _ v2); eassumption.
+  - eapply (sv_tab_step _ _ _ _ _ v3); eassumption.
+  - eapply (sv_tab_step _ _ _ _ _ v4); eassumption.
+Qed.
+
+Lemma apply_bq_sets st line q st' : apply_bq st line q = Ok st' ->
+  tb_set (b_bMarks st) line (q_bMark q) = Ok (b_bMarks st') /\ tb_set (b_bsCount st) line (q_bsCount q) = Ok (b_bsCount st')
+  /\ tb_set (b_tShift st) line (q_tShift q) = Ok (b_tShift st') /\ tb_set (b_sCount st) line (q_sCount q) = Ok (b_sCount st').
+Proof.
+  unfold apply_bq. intros H.
+  destruct (tb_set (b_bMarks st) line (q_bMark q)) as [bm|?|] eqn:E1; cbn [bind] in H; try discriminate H.
+  destruct (tb_set (b_bsCount st) line (q_bsCount q)) as [bs|?|] eqn:E2; cbn [bind] in H; try discriminate H.
+  destruct (tb_set (b_sCount st) line (q_sCount q)) as [sc|?|] eqn:E3; cbn [bind] in H; try discriminate H.
+  destruct (tb_set (b_tShift st) line (q_tShift q)) as [ts|?|] eqn:E4; cbn [bind] in H; try discriminate H.
+  injection H as <-. repeat split.
+Qed.
+
 (* changes that leave the marks alone: lineMax lowered, sCount entries rewritten *)
 Lemma RI_same_marks N st st' : RI N st ->
   b_src st' = b_src st -> b_bMarks st' = b_bMarks st -> b_eMarks st' = b_eMarks st -> b_tShift st' = b_tShift st ->
@@ -726,26 +866,28 @@ Qed.
 
 Definition sv_lens (sv : saved) (n : Z) : Prop := len (o_b sv) = n /\ len (o_ts sv) = n /\ len (o_bs sv) = n /\ len (o_sc sv) = n.
 
-Lemma bq_loop_r N term (T : term_fr term) (TN : term_nr N term) sl0 : forall fuel st sv nl el lle,
+Lemma bq_loop_r N term (T : term_fr term) (TN : term_nr N term) sl0 st0 : forall fuel st sv nl el lle,
   RI N st -> 0 <= sl0 -> sl0 < nl -> nl <= el -> el <= b_lineMax st ->
-  svr (b_src st) (b_eMarks st) N sl0 (o_b sv) (o_ts sv) -> sv_lens sv (nl - sl0) ->
+  svr (b_src st) (b_eMarks st) N sl0 (o_b sv) (o_ts sv) -> sv_lens sv (nl - sl0) -> sv4 st st0 sv sl0 nl ->
   nr (bq_loop fuel term st sv nl el lle)
   /\ forall r sv' st', bq_loop fuel term st sv nl el lle = Ok (r, sv', st') ->
        RI N st' /\ nl <= r <= el /\ r <= b_lineMax st' <= b_lineMax st
        /\ b_src st' = b_src st /\ b_eMarks st' = b_eMarks st
-       /\ svr (b_src st') (b_eMarks st') N sl0 (o_b sv') (o_ts sv') /\ (exists n, sv_lens sv' n /\ r - sl0 <= n <= r + 1 - sl0).
+       /\ svr (b_src st') (b_eMarks st') N sl0 (o_b sv') (o_ts sv')
+       /\ (exists n, sv_lens sv' n /\ r - sl0 <= n <= r + 1 - sl0 /\ sv4 st' st0 sv' sl0 (sl0 + n)).
 Proof.
-  induction fuel as [|f IH]; intros st sv nl el lle R S0 S1 L0 L1 SO (N1 & N2 & N3 & N4); [split; [apply nr_oof | discriminate]|].
+  induction fuel as [|f IH]; intros st sv nl el lle R S0 S1 L0 L1 SO (N1 & N2 & N3 & N4) S4; [split; [apply nr_oof | discriminate]|].
+  assert (S4' : sv4 st st0 sv sl0 (sl0 + (nl - sl0))) by (replace (sl0 + (nl - sl0)) with nl by lia; exact S4).
   cbn [bq_loop].
   assert (LMN : b_lineMax st <= N) by (destruct R as [LM _]; lia).
   destruct (negb (nl <? el)) eqn:NE.
   { split; [apply nr_ok|]. intros r sv' st' H. injection H as <- <- <-. split; [exact R|]. split; [lia|]. split; [lia|].
-    split; [reflexivity|]. split; [reflexivity|]. split; [exact SO|]. exists (nl - sl0). split; [repeat split; assumption | lia]. }
+    split; [reflexivity|]. split; [reflexivity|]. split; [exact SO|]. exists (nl - sl0). split; [repeat split; assumption|]. split; [lia | exact S4']. }
   destruct (RI_reads N st nl R ltac:(lia)) as (b & e & t & sc & bs & Eb & Ee & Et & Es & Ebs & (B0 & T0 & E0 & I1 & I3 & I2)).
   unfold line_start. rewrite Es. cbn [bind]. rewrite Eb, Et. cbn [bind]. rewrite Ee. cbn [bind].
   destruct (e <=? b + t) eqn:MP.
   { split; [apply nr_ok|]. intros r sv' st' H. injection H as <- <- <-. split; [exact R|]. split; [lia|]. split; [lia|].
-    split; [reflexivity|]. split; [reflexivity|]. split; [exact SO|]. exists (nl - sl0). split; [repeat split; assumption | lia]. }
+    split; [reflexivity|]. split; [reflexivity|]. split; [exact SO|]. exists (nl - sl0). split; [repeat split; assumption|]. split; [lia | exact S4']. }
   destruct (py_idx (b_src st) (b + t)) as [c|ex|] eqn:Ec; cbn [bind].
   2:{ exfalso. exact (nr_py_idx (b_src st) (b + t) ltac:(lia) ex Ec). }
   2:{ split; [apply nr_oof | discriminate]. }
@@ -767,14 +909,16 @@ Proof.
     2:{ exfalso. exact (AN ex eq_refl). }
     2:{ split; [apply nr_oof | discriminate]. }
     destruct (AP st1 eq_refl) as (R1 & A1 & A2 & A3 & _).
+    destruct (apply_bq_sets _ _ _ _ AB) as (W1 & W2 & W3 & W4).
     destruct (IH st1 sv1 (nl + 1) el (q_empty q) R1 S0 ltac:(lia) ltac:(lia) ltac:(lia)) as [NR POST].
     { rewrite A1, A2. exact SO1. }
     { repeat split; lia. }
+    { eapply (sv4_step st st0 sv sl0 nl sv1 st1); [exact S4 | lia | exact SL | right; exact W1 | right; exact W2 | right; exact W3 | right; exact W4]. }
     split; [exact NR|]. intros r sv' st' H. destruct (POST r sv' st' H) as (P1 & P2 & P3 & P4 & P5 & P6 & P7).
     split; [exact P1|]. split; [lia|]. split; [lia|]. split; [congruence|]. split; [congruence|]. split; [exact P6 | exact P7].
   - destruct lle.
     { split; [apply nr_ok|]. intros r sv' st' H. injection H as <- <- <-. split; [exact R|]. split; [lia|]. split; [lia|].
-      split; [reflexivity|]. split; [reflexivity|]. split; [exact SO|]. exists (nl - sl0). split; [repeat split; assumption | lia]. }
+      split; [reflexivity|]. split; [reflexivity|]. split; [exact SO|]. exists (nl - sl0). split; [repeat split; assumption|]. split; [lia | exact S4']. }
     destruct (term nm_blockquote st nl el) as [[tt st1]|ex|] eqn:TE; cbn [bind].
     2:{ exfalso. refine (TN nm_blockquote st nl el ltac:(discriminate) _ ex TE). split; [exact R|]. lia. }
     2:{ split; [apply nr_oof | discriminate]. }
@@ -802,10 +946,14 @@ Proof.
         split.
         { pose proof R2 as (LM2 & K1' & K2' & K3' & K4' & K5' & RR). apply (RI_same_marks N (st1 <| b_lineMax := nl |>) _ R2); try reflexivity; cbn in *; try lia; assumption. }
         cbn. split; [lia|]. split; [lia|]. split; [exact Q1|]. split; [exact Q3|]. split; [exact SO1|].
-        exists (nl + 1 - sl0). split; [repeat split; assumption | lia].
+        exists (nl + 1 - sl0). split; [repeat split; assumption|]. split; [lia|].
+        replace (sl0 + (nl + 1 - sl0)) with (nl + 1) by lia.
+        eapply (sv4_step (st1 <| b_lineMax := nl |>) st0 sv sl0 nl sv1 _ 0 0 0); [|lia|exact SL|left; reflexivity|left; reflexivity|left; reflexivity|right; exact TS].
+        apply (sv4_same st); cbn; try assumption.
       * split; [apply nr_ok|]. intros r sv' st' H. injection H as <- <- <-.
         split; [exact R2|]. cbn. split; [lia|]. split; [lia|]. split; [exact Q1|]. split; [exact Q3|].
-        split; [rewrite Q1, Q3; exact SO|]. exists (nl - sl0). split; [repeat split; assumption | lia].
+        split; [rewrite Q1, Q3; exact SO|]. exists (nl - sl0). split; [repeat split; assumption|]. split; [lia|].
+        apply (sv4_same st); cbn; try assumption.
     + (* a lazy continuation line *)
       destruct (save_line_r N sv st1 nl sl0 R1 ltac:(lia)) as [SN SP]; try assumption.
       { rewrite Q1, Q3. exact SO. }
@@ -824,28 +972,36 @@ Proof.
       { cbn. lia. }
       { cbn. exact SO1. }
       { repeat split; lia. }
+      { eapply (sv4_step st1 st0 sv sl0 nl sv1 _ 0 0 0); [|lia|exact SL|left; reflexivity|left; reflexivity|left; reflexivity|right; exact TS].
+        apply (sv4_same st); try assumption. }
       split; [exact NR|]. intros r sv' st' H. destruct (POST r sv' st' H) as (P1 & P2 & P3 & P4 & P5 & P6 & P7). cbn in P3, P4, P5.
       split; [exact P1|]. split; [lia|]. split; [lia|]. split; [congruence|]. split; [congruence|]. split; [exact P6 | exact P7].
 Qed.
 
 (* what a rule or the nested tokenize leaves behind *)
 Definition post_ok (N : Z) (st st' : bstate) : Prop :=
-  RI N st' /\ b_lineMax st' = b_lineMax st /\ b_src st' = b_src st /\ b_eMarks st' = b_eMarks st.
-Lemma post_tabs N st st' : RI N st -> tabs_eq st st' -> post_ok N st st'.
-Proof. intros R T. split; [exact (tabs_eq_RI _ _ _ T R)|]. destruct T as (A1 & _ & A3 & _ & _ & _ & A7). repeat split; assumption. Qed.
+  RI N st' /\ TI st' /\ b_lineMax st' = b_lineMax st /\ b_src st' = b_src st /\ b_eMarks st' = b_eMarks st.
+Lemma tabs_eq_TI st st' : tabs_eq st st' -> TI st -> TI st'.
+Proof. intros (A1 & A2 & A3 & A4 & _) H. unfold TI. rewrite A1, A2, A3, A4. exact H. Qed.
+Lemma post_tabs N st st' : RI N st -> TI st -> tabs_eq st st' -> post_ok N st st'.
+Proof.
+  intros R HT T. split; [exact (tabs_eq_RI _ _ _ T R)|]. split; [exact (tabs_eq_TI _ _ T HT)|].
+  destruct T as (A1 & _ & A3 & _ & _ & _ & A7). repeat split; assumption.
+Qed.
 
+(* the nested tokenize: no exception; what it leaves behind; where the cursor ends *)
 Definition rec_n (N : Z) (rec : rec_t) : Prop := forall st a b,
-  RI N st -> 0 <= a -> a < b -> b <= b_lineMax st ->
-  nr (rec st a b) /\ forall st', rec st a b = Ok st' -> post_ok N st st'.
+  RI N st -> TI st -> 0 <= a -> a < b -> b <= b_lineMax st ->
+  nr (rec st a b) /\ forall st', rec st a b = Ok st' -> tabs_eq st st' /\ a <= b_line st' <= b_lineMax st.
 
 Lemma r_blockquote_r N rec term (RN : rec_n N rec) (T : term_fr term) (TN : term_nr N term) st sl el silent :
-  pre2 N st sl el ->
+  pre2 N st sl el -> TI st ->
   nr (r_blockquote cfg rec term st sl el silent)
-  /\ forall b st', r_blockquote cfg rec term st sl el silent = Ok (b, st') -> post_ok N st st'.
+  /\ forall b st', r_blockquote cfg rec term st sl el silent = Ok (b, st') -> tabs_eq st st'.
 Proof.
-  intros (R & S0 & S1 & S2). assert (Hl : 0 <= sl <= N) by (destruct R as [LM _]; lia).
+  intros (R & S0 & S1 & S2) HTI. assert (Hl : 0 <= sl <= N) by (destruct R as [LM _]; lia).
   assert (LMN : b_lineMax st <= N) by (destruct R as [LM _]; lia). prologue R Hl.
-  assert (SAME : post_ok N st st) by (apply post_tabs; [exact R | apply tabs_eq_refl]).
+  assert (SAME : tabs_eq st st) by apply tabs_eq_refl.
   unfold r_blockquote, line_start, code_block_at, is_code_block. cbv zeta. rewrite Eb, Et, Ee, Es. cbn [bind].
   destruct (c_code cfg && (4 <=? sc - b_blkIndent st)); [split; [apply nr_ok | intros b0 st' H; injection H as <- <-; exact SAME]|].
   rewrite match_some_62.
@@ -865,37 +1021,52 @@ Proof.
   2:{ exfalso. exact (bq_strip_nr (b_src st) (b + t) e sc bs ltac:(lia) ltac:(lia) ex BS). }
   2:{ split; [apply nr_oof | discriminate]. }
   destruct (bq_strip_row _ N sl _ _ _ _ _ BS ltac:(lia) PE E0 I1 I3) as [RO QS].
+  pose proof (bq_strip_spec _ _ _ _ _ _ BS) as (Q1 & Q2 & Q3).
+  assert (G : goodbt (b_src st) (b_eMarks st) sl (q_bMark q) (q_tShift q)).
+  { pose proof (TIp_good _ _ _ _ sl _ _ HTI ltac:(lia) Eb Et) as G0. eapply goodbt_mono; [exact G0 | lia | lia]. }
   destruct (save_line_r N (mkSaved [] [] [] []) st sl sl R Hl I ltac:(cbn; lia) ltac:(cbn; lia) ltac:(cbn; lia) ltac:(cbn; lia)) as [SN SP].
   destruct (save_line (mkSaved [] [] [] []) st sl) as [sv0|ex|] eqn:SL; cbn [bind].
   2:{ exfalso. exact (SN ex eq_refl). }
   2:{ split; [apply nr_oof | discriminate]. }
   destruct (SP sv0 eq_refl) as (SO1 & M1 & M2 & M3 & M4).
+  destruct (save_line_m (mkSaved [] [] [] []) st sl sv0 sl SL S0 HTI I ltac:(cbn; lia) ltac:(cbn; lia)) as (TSO1 & _ & _).
   destruct (apply_bq_r N st sl q R Hl) as [AN AP].
   { intros e' Ee'. rewrite Ee in Ee'. injection Ee' as <-. exact RO. }
   destruct (apply_bq st sl q) as [st1|ex|] eqn:AB; cbn [bind].
   2:{ exfalso. exact (AN ex eq_refl). }
   2:{ split; [apply nr_oof | discriminate]. }
   destruct (AP st1 eq_refl) as (R1 & A1 & A2 & A3 & _).
-  destruct (bq_loop_r N term T TN sl (S (Z.to_nat (el - sl))) (st_parent st1 nm_blockquote) sv0 (sl + 1) el (q_empty q)) as [LN LP].
-  { exact R1. } { lia. } { lia. } { lia. } { cbn. lia. } { cbn. rewrite A1, A2. exact SO1. } { repeat split; lia. }
+  destruct (apply_bq_m _ _ _ _ AB S0 HTI G) as (HT1 & (K11 & K12 & K13 & K14 & K15) & _).
+  destruct (apply_bq_sets _ _ _ _ AB) as (W1 & W2 & W3 & W4).
+  assert (S41 : sv4 (st_parent st1 nm_blockquote) st sv0 sl (sl + 1)).
+  { apply (sv4_same st1); try reflexivity.
+    eapply (sv4_step st st (mkSaved [] [] [] []) sl sl sv0 st1); [|lia|exact SL|right; exact W1|right; exact W2|right; exact W3|right; exact W4].
+    unfold sv4. cbn [o_b o_bs o_ts o_sc]. split; [|split; [|split]]; apply sv_tab_init. }
+  destruct (bq_loop_r N term T TN sl st (S (Z.to_nat (el - sl))) (st_parent st1 nm_blockquote) sv0 (sl + 1) el (q_empty q)) as [LN LP].
+  { exact R1. } { lia. } { lia. } { lia. } { cbn. lia. } { cbn. rewrite A1, A2. exact SO1. } { repeat split; lia. } { exact S41. }
   destruct (bq_loop (S (Z.to_nat (el - sl))) term (st_parent st1 nm_blockquote) sv0 (sl + 1) el (q_empty q)) as [[[nl sv] st3]|ex|] eqn:BL; cbn [bind].
   2:{ exfalso. exact (LN ex eq_refl). }
   2:{ split; [apply nr_oof | discriminate]. }
-  destruct (LP nl sv st3 eq_refl) as (R3 & B1 & B2 & B3 & B4 & SO3 & (n & (V1 & V2 & V3 & V4) & NB)). cbn in B2, B3, B4.
-  match goal with |- nr (bind (rec ?S5 _ _) _) /\ _ => assert (R5 : RI N S5 /\ b_lineMax S5 = b_lineMax st3 /\ b_src S5 = b_src st3 /\ b_eMarks S5 = b_eMarks st3) end.
-  { split; [|repeat split]. pose proof R3 as (LM3 & K1 & K2 & K3 & K4 & K5 & RR).
+  destruct (LP nl sv st3 eq_refl) as (R3 & B1 & B2 & B3 & B4 & SO3 & (n & (V1 & V2 & V3 & V4) & NB & S43)). cbn in B2, B3, B4.
+  pose proof BL as BL'. apply (bq_loop_m term T sl) in BL'; try lia.
+  2: cbn; lia. 2: exact HT1. 2: cbn; rewrite K13, K14; exact TSO1.
+  destruct BL' as (_ & _ & _ & HT3 & TSO3 & _ & _).
+  match goal with |- nr (bind (rec ?S5 _ _) _) /\ _ => assert (R5 : RI N S5 /\ TI S5 /\ b_lineMax S5 = b_lineMax st3 /\ b_src S5 = b_src st3 /\ b_eMarks S5 = b_eMarks st3) end.
+  { split; [|split; [exact HT3 | repeat split]]. pose proof R3 as (LM3 & K1 & K2 & K3 & K4 & K5 & RR).
     apply (RI_same_marks N st3 _ R3); try reflexivity; cbn; try lia; assumption. }
-  destruct R5 as (R5 & LM5 & SR5 & EM5).
-  match goal with |- nr (bind (rec ?S5 ?a ?b0) _) /\ _ => destruct (RN S5 a b0 R5 S0 ltac:(lia) ltac:(rewrite LM5; lia)) as [RNN RNP];
+  destruct R5 as (R5 & HT5 & LM5 & SR5 & EM5).
+  match goal with |- nr (bind (rec ?S5 ?a ?b0) _) /\ _ => destruct (RN S5 a b0 R5 HT5 S0 ltac:(lia) ltac:(rewrite LM5; lia)) as [RNN RNP];
     destruct (rec S5 a b0) as [st6|ex|] eqn:RC; cbn [bind] end.
   2:{ exfalso. exact (RNN ex eq_refl). }
   2:{ split; [apply nr_oof | discriminate]. }
-  destruct (RNP st6 eq_refl) as (R6 & LM6 & SR6 & EM6).
+  destruct (RNP st6 eq_refl) as (TE6 & _).
+  pose proof (tabs_eq_RI _ _ _ TE6 R5) as R6. pose proof (tabs_eq_TI _ _ TE6 HT5) as HT6.
+  pose proof TE6 as (SR6 & BM6 & EM6 & TS6 & SC6 & BS6 & LM6).
   match goal with |- nr (bind (restore_tables ?S9 _ _ _ _ _) _) /\ _ =>
-    assert (R9 : RI N S9 /\ b_src S9 = b_src st6 /\ b_eMarks S9 = b_eMarks st6 /\ b_lineMax S9 = b_lineMax st) end.
-  { split; [|repeat split]. pose proof R6 as (LM6' & K1 & K2 & K3 & K4 & K5 & RR).
+    assert (R9 : RI N S9 /\ TI S9 /\ b_src S9 = b_src st6 /\ b_eMarks S9 = b_eMarks st6 /\ b_lineMax S9 = b_lineMax st) end.
+  { split; [|split; [exact HT6 | repeat split]]. pose proof R6 as (LM6' & K1 & K2 & K3 & K4 & K5 & RR).
     apply (RI_same_marks N st6 _ R6); try reflexivity; cbn; try lia; assumption. }
-  destruct R9 as (R9 & SR9 & EM9 & LM9).
+  destruct R9 as (R9 & HT9 & SR9 & EM9 & LM9).
   match goal with |- nr (bind (restore_tables ?S9 ?l ?bb ?bss ?tss ?scs) _) /\ _ =>
     destruct (restore_tables_r N tss S9 l bb bss scs R9 S0) as [TN9 TP9] end.
   { unfold len in *. lia. } { unfold len in *. lia. } { unfold len in *. lia. } { unfold len in *. lia. }
@@ -904,10 +1075,294 @@ Proof.
   2:{ exfalso. exact (TN9 ex eq_refl). }
   2:{ split; [apply nr_oof | discriminate]. }
   destruct (TP9 st10 eq_refl) as (R10 & SR10 & EM10 & LM10 & _).
+  apply restore_is_put_all in RT; [|unfold len in *; lia|unfold len in *; lia|unfold len in *; lia].
+  cbn [b_bMarks b_bsCount b_tShift b_sCount set st_parent bpush] in RT. destruct RT as (P1 & P2 & P3 & P4).
+  destruct S43 as (X1 & X2 & X3 & X4).
+  assert (HI : 0 <= sl <= sl + n) by lia.
   split; [apply nr_ok|]. intros b0 st' H. injection H as <- <-.
+  unfold tabs_eq. cbn.
+  split; [congruence|].
+  split; [eapply put_all_restores; [| exact HI | exact P1]; rewrite BM6; exact X1|].
+  split; [congruence|].
+  split; [eapply put_all_restores; [| exact HI | exact P3]; rewrite TS6; exact X3|].
+  split; [eapply put_all_restores; [| exact HI | exact P4]; rewrite SC6; exact X4|].
+  split; [eapply put_all_restores; [| exact HI | exact P2]; rewrite BS6; exact X2|].
+  congruence.
+Qed.
+
+(* ---- list ---- *)
+Lemma list_blanks_nr : forall fuel src pos maximum offset bs, 0 <= pos -> maximum <= len src -> nr (list_blanks fuel src pos maximum offset bs).
+Proof.
+  induction fuel as [|f IH]; intros src pos maximum offset bs H0 HM; cbn [list_blanks]; [apply nr_ok|].
+  destruct (negb (pos <? maximum)) eqn:E; [apply nr_ok|].
+  apply nr_bind; [apply nr_py_idx; lia|]. intros ch _.
+  destruct (ch =? 9); [apply IH; lia|]. destruct (ch =? 32); [apply IH; lia | apply nr_ok].
+Qed.
+
+Lemma list_blanks_stop : forall fuel src pos maximum offset bs p2 o2,
+  list_blanks fuel src pos maximum offset bs = Ok (p2, o2) -> 0 <= pos -> (Z.to_nat (maximum - pos) < fuel)%nat ->
+  (pos <= maximum -> p2 <= maximum) /\ (p2 < maximum -> exists c, py_idx src p2 = Ok c /\ is_space c = false).
+Proof.
+  induction fuel as [|f IH]; intros src pos maximum offset bs p2 o2 H H0 HF; [lia|]. cbn [list_blanks] in H.
+  destruct (negb (pos <? maximum)) eqn:E; [rfinish H; split; lia|].
+  destruct (py_idx src pos) as [ch|?|] eqn:Ec; cbn [bind] in H; try discriminate H.
+  destruct (ch =? 9) eqn:E9; [apply IH in H; [|lia|lia]; destruct H as [A B]; split; [intros; apply A; lia | exact B]|].
+  destruct (ch =? 32) eqn:E32; [apply IH in H; [|lia|lia]; destruct H as [A B]; split; [intros; apply A; lia | exact B]|].
+  rfinish H. split; [lia|]. intros _. exists ch. split; [exact Ec|]. unfold is_space. rewrite E9, E32. reflexivity.
+Qed.
+
+Lemma ordered_digits_nr : forall fuel src start pos maximum, 0 <= pos -> maximum <= len src -> nr (ordered_digits fuel src start pos maximum).
+Proof.
+  induction fuel as [|f IH]; intros src start pos maximum H0 HM; cbn [ordered_digits]; [apply nr_ok|].
+  destruct (maximum <=? pos) eqn:E; [apply nr_ok|].
+  apply nr_bind; [apply nr_py_idx; lia|]. intros ch _. cbv zeta.
+  destruct (is_digit ch); [destruct (10 <=? pos + 1 - start); [apply nr_ok | apply IH; lia]|].
+  destruct ((ch =? 41) || (ch =? 46)); [|apply nr_ok].
+  destruct (pos + 1 <? maximum) eqn:PM; [|apply nr_ok].
+  apply nr_bind; [apply nr_py_idx; lia|]. intros c _. apply nr_ok.
+Qed.
+
+Lemma ordered_digits_le : forall fuel src start pos maximum r,
+  ordered_digits fuel src start pos maximum = Ok r -> r = -1 \/ (pos < r <= maximum).
+Proof.
+  induction fuel as [|f IH]; intros src start pos maximum r H; cbn [ordered_digits] in H; [rfinish H; left; reflexivity|].
+  destruct (maximum <=? pos) eqn:E; [rfinish H; left; reflexivity|].
+  rstep H. cbv zeta in H. destruct (is_digit x).
+  - destruct (10 <=? pos + 1 - start); [rfinish H; left; reflexivity|]. apply IH in H. lia.
+  - destruct ((x =? 41) || (x =? 46)); [|rfinish H; left; reflexivity].
+    destruct (pos + 1 <? maximum) eqn:PM; [|rfinish H; right; lia].
+    rstep H. rfinish H. destruct (is_space x0); [right; lia | left; reflexivity].
+Qed.
+
+(* the position after a list marker: inside the line, right behind a character of the source *)
+Lemma skip_ordered_r N st l : RI N st -> 0 <= l <= N ->
+  nr (skip_ordered st l)
+  /\ forall r b e t, skip_ordered st l = Ok r -> tb (b_bMarks st) l = Ok b -> tb (b_eMarks st) l = Ok e -> tb (b_tShift st) l = Ok t ->
+       r = -1 \/ (b + t < r <= e).
+Proof.
+  intros R Hl. destruct (RI_reads N st l R Hl) as (b & e & t & sc & bs & Eb & Ee & Et & Es & Ebs & (B0 & T0 & E0 & I1 & I3 & I2)).
+  unfold skip_ordered, line_start. rewrite Eb, Et. cbn [bind]. rewrite Ee. cbn [bind]. split.
+  - destruct (e <=? b + t + 1) eqn:X; [apply nr_ok|].
+    apply nr_bind; [apply nr_py_idx; lia|]. intros ch _. destruct (negb (is_digit ch)); [apply nr_ok|].
+    apply ordered_digits_nr; lia.
+  - intros r b' e' t' H Eb' Ee' Et'. injection Eb' as <-. injection Ee' as <-. injection Et' as <-.
+    destruct (e <=? b + t + 1) eqn:X; [rfinish H; left; reflexivity|].
+    rstep H. destruct (negb (is_digit x)); [rfinish H; left; reflexivity|].
+    apply ordered_digits_le in H. lia.
+Qed.
+
+Lemma skip_bullet_r N st l : RI N st -> 0 <= l <= N ->
+  nr (skip_bullet st l)
+  /\ forall r b e t, skip_bullet st l = Ok r -> tb (b_bMarks st) l = Ok b -> tb (b_eMarks st) l = Ok e -> tb (b_tShift st) l = Ok t ->
+       r = -1 \/ (b + t < r <= e).
+Proof.
+  intros R Hl. destruct (RI_reads N st l R Hl) as (b & e & t & sc & bs & Eb & Ee & Et & Es & Ebs & (B0 & T0 & E0 & I1 & I3 & I2)).
+  unfold skip_bullet, line_start. rewrite Eb, Et. cbn [bind]. rewrite Ee. cbn [bind].
+  (* a marker character at the logical line start lies before the end mark *)
+  assert (MK : forall m, char_at (b_src st) (b + t) = Some m -> (m =? 42) || (m =? 45) || (m =? 43) = true -> b + t < e).
+  { intros m Em Hm. destruct (Z_lt_le_dec (b + t) e) as [Lt|Ge]; [exact Lt|]. exfalso. assert (b + t = e) by lia.
+    rewrite LfCount.char_at_nonneg in Em by lia.
+    assert (LL : e < len (b_src st)) by (assert (Z.to_nat (b + t) < length (b_src st))%nat by (apply nth_error_Some; congruence); unfold len; lia).
+    specialize (I3 LL). apply py_idx_get in I3; [|lia]. destruct I3 as [I3 _]. rewrite H in Em. rewrite I3 in Em. injection Em as <-. discriminate Hm. }
   split.
-  { pose proof R10 as (LMx & K1 & K2 & K3 & K4 & K5 & RR). apply (RI_same_marks N st10 _ R10); try reflexivity; cbn; try lia; assumption. }
-  cbn. split; [congruence|]. split; congruence.
+  - destruct (char_at (b_src st) (b + t)) as [m|] eqn:Em; [|apply nr_ok].
+    destruct (negb ((m =? 42) || (m =? 45) || (m =? 43))) eqn:NM; [apply nr_ok|].
+    destruct (b + t + 1 <? e) eqn:X; [|apply nr_ok].
+    apply nr_bind; [apply nr_py_idx; lia|]. intros ch _. apply nr_ok.
+  - intros r b' e' t' H Eb' Ee' Et'. injection Eb' as <-. injection Ee' as <-. injection Et' as <-.
+    destruct (char_at (b_src st) (b + t)) as [m|] eqn:Em; [|rfinish H; left; reflexivity].
+    destruct (negb ((m =? 42) || (m =? 45) || (m =? 43))) eqn:NM; [rfinish H; left; reflexivity|].
+    specialize (MK m eq_refl ltac:(destruct ((m =? 42) || (m =? 45) || (m =? 43)); [reflexivity | discriminate NM])).
+    destruct (b + t + 1 <? e) eqn:X; [|rfinish H; right; lia].
+    rstep H. rfinish H. destruct (is_space x); [right; lia | left; reflexivity].
+Qed.
+
+Definition pam_ok (st : bstate) (sl pam : Z) : Prop :=
+  forall b e t, tb (b_bMarks st) sl = Ok b -> tb (b_eMarks st) sl = Ok e -> tb (b_tShift st) sl = Ok t -> b + t < pam <= e.
+
+Lemma list_items_r N rec term (RN : rec_n N rec) (T : term_fr term) (TN : term_nr N term) :
+  forall fuel st isOrd mc sl el pam start tight pee,
+  RI N st -> TI st -> 0 <= sl -> sl < el -> el <= b_lineMax st -> b_line st = sl -> pam_ok st sl pam ->
+  nr (list_items cfg fuel rec term st isOrd mc sl sl el pam start tight pee)
+  /\ forall nl t' st', list_items cfg fuel rec term st isOrd mc sl sl el pam start tight pee = Ok (nl, t', st') -> tabs_eq st st'.
+Proof.
+  induction fuel as [|f IH]; intros st isOrd mc sl el pam start tight pee R HT S0 S1 S2 BL PM; [split; [apply nr_oof | discriminate]|].
+  cbn [list_items].
+  assert (NE : negb (sl <? el) = false) by lia. rewrite NE.
+  assert (LMN : b_lineMax st <= N) by (destruct R as [LM _]; lia). assert (Hl : 0 <= sl <= N) by lia.
+  destruct (RI_reads N st sl R Hl) as (b & e & t & sc & bs & Eb & Ee & Et & Es & Ebs & (B0 & T0 & E0 & I1 & I3 & I2)).
+  specialize (PM b e t Eb Ee Et).
+  assert (LS : line_start st sl = Ok (b + t)) by (unfold line_start; rewrite Eb, Et; reflexivity).
+  rewrite Ee, Es, LS, Ebs. cbn [bind].
+  destruct (list_blanks (S (length (b_src st))) (b_src st) pam e (sc + pam - (b + t)) bs) as [[contentStart offset]|ex|] eqn:LB; cbn [bind].
+  2:{ exfalso. exact (list_blanks_nr _ (b_src st) pam e _ bs ltac:(lia) ltac:(lia) ex LB). }
+  2:{ split; [apply nr_oof | discriminate]. }
+  pose proof (list_blanks_mono _ _ _ _ _ _ _ _ LB) as [LB1 LB2].
+  destruct (list_blanks_stop _ _ _ _ _ _ _ _ LB ltac:(lia) ltac:(unfold len in *; lia)) as [LB3 LB4]. specialize (LB3 ltac:(lia)).
+  cbv zeta.
+  match goal with |- context [bpush st s_list_item_open s_li 1 ?f] => set (st1 := bpush st s_list_item_open s_li 1 f) in * end.
+  change (b_tShift st1) with (b_tShift st). change (b_sCount st1) with (b_sCount st). change (b_bMarks st1) with (b_bMarks st).
+  rewrite Et, Es, Eb. cbn [bind].
+  pose proof R as (LM & L1 & L2 & L3 & L4 & L5 & RR).
+  destruct (tb_set (b_tShift st) sl (contentStart - b)) as [ts'|ex|] eqn:S1'; cbn [bind].
+  2:{ exfalso. exact (tb_set_nr (b_tShift st) sl _ ltac:(lia) ex S1'). }
+  2:{ split; [apply nr_oof | discriminate]. }
+  destruct (tb_set (b_sCount st) sl offset) as [sc'|ex|] eqn:S2'; cbn [bind].
+  2:{ exfalso. exact (tb_set_nr (b_sCount st) sl _ ltac:(lia) ex S2'). }
+  2:{ split; [apply nr_oof | discriminate]. }
+  destruct (tb_set_spec _ _ _ _ S1' S0) as (TS1 & TSO & TSL). destruct (tb_set_spec _ _ _ _ S2' S0) as (SC1 & SCO & SCL).
+  match goal with |- context [st1 <| b_listIndent := ?a |> <| b_blkIndent := ?b0 |> <| b_tight := ?c |> <| b_tShift := ?d |> <| b_sCount := ?e0 |>] =>
+    set (st2 := st1 <| b_listIndent := a |> <| b_blkIndent := b0 |> <| b_tight := c |> <| b_tShift := d |> <| b_sCount := e0 |>) in * end.
+  assert (R2 : RI N st2).
+  { apply (RI_row_update N st st2 sl R Hl); try reflexivity; unfold st2, st1; cbn; try lia.
+    - intros j Hj Nj. split; [reflexivity | apply TSO; assumption].
+    - intros b' e' t' Eb' Ee' Et'. rewrite Eb in Eb'. rewrite Ee in Ee'. rewrite TS1 in Et'. injection Eb' as <-. injection Ee' as <-. injection Et' as <-.
+      unfold row_ok. replace (b + (contentStart - b)) with contentStart by lia. repeat split; try lia; assumption. }
+  assert (HT2 : TI st2) by (unfold TI, st2, st1; cbn; exact (TIp_set_ts _ _ _ _ _ _ _ HT S0 S1' ltac:(lia))).
+  assert (L2' : b_lineMax st2 = b_lineMax st) by reflexivity.
+  (* the item body *)
+  match goal with |- nr (bind ?m _) /\ _ => assert (BODY : nr m /\ forall st3, m = Ok st3 -> tabs_eq st2 st3 /\ sl <= b_line st3 <= b_lineMax st) end.
+  { destruct (e <=? contentStart) eqn:MC.
+    - destruct (is_empty st2 (sl + 1)) as [em|ex|] eqn:IE; cbn [bind].
+      2:{ exfalso. exact (is_empty_nr N st2 (sl + 1) R2 ltac:(lia) ex IE). }
+      2:{ split; [apply nr_oof | discriminate]. }
+      destruct em.
+      + split; [apply nr_ok|]. intros st3 H. injection H as <-. change (b_line st2) with (b_line st). rewrite BL.
+        split; [repeat split|]. cbn. lia.
+      + destruct (RN st2 sl el R2 HT2 S0 S1 ltac:(rewrite L2'; lia)) as [A B']. split; [exact A|]. intros st3 H.
+        destruct (B' st3 H) as (P1 & P6). rewrite L2' in *. split; assumption.
+    - cbn [bind]. destruct (RN st2 sl el R2 HT2 S0 S1 ltac:(rewrite L2'; lia)) as [A B']. split; [exact A|]. intros st3 H.
+      destruct (B' st3 H) as (P1 & P6). rewrite L2' in *. split; assumption. }
+  destruct BODY as [BN BP].
+  match goal with |- nr (bind ?m _) /\ _ => destruct m as [st3|ex|] eqn:BD; cbn [bind] end.
+  2:{ exfalso. exact (BN ex eq_refl). }
+  2:{ split; [apply nr_oof | discriminate]. }
+  destruct (BP st3 eq_refl) as (TE3 & LB3'). clear BN BP.
+  pose proof (tabs_eq_RI _ _ _ TE3 R2) as R3. pose proof (tabs_eq_TI _ _ TE3 HT2) as HT3.
+  pose proof TE3 as (SR3 & BM3 & EM3 & TS3 & SC3 & BS3 & LM3).
+  pose proof R3 as (LM3' & K1 & K2 & K3 & K4 & K5 & RR3).
+  match goal with |- nr (bind ?m _) /\ _ => assert (PE : nr m) end.
+  { destruct (1 <? b_line st3 - sl) eqn:X; [apply (is_empty_nr N); [exact R3 | lia] | apply nr_ok]. }
+  match goal with |- nr (bind ?m _) /\ _ => destruct m as [pee'|ex|] eqn:PEE; cbn [bind] end.
+  2:{ exfalso. exact (PE ex eq_refl). }
+  2:{ split; [apply nr_oof | discriminate]. }
+  destruct (tb_set (b_tShift st3) sl t) as [ts''|ex|] eqn:S3'; cbn [bind].
+  2:{ exfalso. exact (tb_set_nr (b_tShift st3) sl _ ltac:(lia) ex S3'). }
+  2:{ split; [apply nr_oof | discriminate]. }
+  destruct (tb_set (b_sCount st3) sl sc) as [sc''|ex|] eqn:S4'; cbn [bind].
+  2:{ exfalso. exact (tb_set_nr (b_sCount st3) sl _ ltac:(lia) ex S4'). }
+  2:{ split; [apply nr_oof | discriminate]. }
+  (* the two entries are back to what they were *)
+  assert (TSB : ts'' = b_tShift st).
+  { rewrite TS3 in S3'. unfold st2, st1 in S3'. cbn in S3'. exact (tb_set_back _ _ _ _ _ _ S1' Et S3' S0). }
+  assert (SCB : sc'' = b_sCount st).
+  { rewrite SC3 in S4'. unfold st2, st1 in S4'. cbn in S4'. exact (tb_set_back _ _ _ _ _ _ S2' Es S4' S0). }
+  subst ts'' sc''.
+  match goal with |- context [bpush ?s4 s_list_item_close s_li (-1) ?f] => set (st5 := bpush s4 s_list_item_close s_li (-1) f) in * end.
+  change (b_line st5) with (b_line st3).
+  match goal with |- context [st5 <| b_tokens := ?v |>] => set (st6 := st5 <| b_tokens := v |>) in * end.
+  assert (TE6 : tabs_eq st st6).
+  { unfold tabs_eq, st6, st5. cbn. unfold st2, st1 in *. cbn in *. repeat split; congruence. }
+  pose proof (tabs_eq_RI _ _ _ TE6 R) as R6. pose proof (tabs_eq_TI _ _ TE6 HT) as HT6.
+  assert (B6 : b_line st6 = b_line st3) by reflexivity.
+  destruct (el <=? b_line st3) eqn:EN; [split; [apply nr_ok|]; intros nl t' st' H; injection H as <- <- <-; exact TE6|].
+  destruct (RI_reads N st6 (b_line st3) R6 ltac:(lia)) as (b6 & e6 & t6 & sc6 & bs6 & Eb6 & Ee6 & Et6 & Es6 & Ebs6 & (B06 & T06 & E06 & I16 & I36 & I26)).
+  rewrite Es6. cbn [bind].
+  destruct (sc6 <? b_blkIndent st6); [split; [apply nr_ok|]; intros nl t' st' H; injection H as <- <- <-; exact TE6|].
+  unfold code_block_at, is_code_block. rewrite Es6. cbn [bind].
+  destruct (c_code cfg && (4 <=? sc6 - b_blkIndent st6)); [split; [apply nr_ok|]; intros nl t' st' H; injection H as <- <- <-; exact TE6|].
+  destruct (term nm_list st6 (b_line st3) el) as [[tt st7]|ex|] eqn:TE; cbn [bind].
+  2:{ exfalso. refine (TN nm_list st6 (b_line st3) el ltac:(discriminate) _ ex TE). split; [exact R6|]. destruct TE6 as (_ & _ & _ & _ & _ & _ & X). rewrite X. lia. }
+  2:{ split; [apply nr_oof | discriminate]. }
+  pose proof (T nm_list _ _ _ _ _ ltac:(discriminate) TE) as F7.
+  pose proof (tabs_eq_trans _ _ _ TE6 (fr_tabs_eq _ _ F7)) as TE7.
+  pose proof (tabs_eq_RI _ _ _ TE7 R) as R7. pose proof (tabs_eq_TI _ _ TE7 HT) as HT7.
+  destruct tt; [split; [apply nr_ok|]; intros nl t' st' H; injection H as <- <- <-; exact TE7|].
+  assert (SKIP : nr (if isOrd then skip_ordered st7 (b_line st3) else skip_bullet st7 (b_line st3))
+                 /\ forall pam', (if isOrd then skip_ordered st7 (b_line st3) else skip_bullet st7 (b_line st3)) = Ok pam' -> pam' = -1 \/ pam_ok st7 (b_line st3) pam').
+  { destruct isOrd.
+    - destruct (skip_ordered_r N st7 (b_line st3) R7 ltac:(lia)) as [A B']. split; [exact A|]. intros pam' H.
+      destruct (Z.eq_dec pam' (-1)) as [->|Np]; [left; reflexivity|]. right. intros b' e' t' X1 X2 X3. destruct (B' pam' b' e' t' H X1 X2 X3); lia.
+    - destruct (skip_bullet_r N st7 (b_line st3) R7 ltac:(lia)) as [A B']. split; [exact A|]. intros pam' H.
+      destruct (Z.eq_dec pam' (-1)) as [->|Np]; [left; reflexivity|]. right. intros b' e' t' X1 X2 X3. destruct (B' pam' b' e' t' H X1 X2 X3); lia. }
+  destruct SKIP as [SKN SKP].
+  match goal with |- nr (bind ?m _) /\ _ => destruct m as [pam'|ex|] eqn:SK; cbn [bind] end.
+  2:{ exfalso. exact (SKN ex eq_refl). }
+  2:{ split; [apply nr_oof | discriminate]. }
+  destruct (pam' <? 0) eqn:PN; [split; [apply nr_ok|]; intros nl t' st' H; injection H as <- <- <-; exact TE7|].
+  destruct (SKP pam' eq_refl) as [->|PM']; [discriminate PN|].
+  destruct (RI_reads N st7 (b_line st3) R7 ltac:(lia)) as (b7 & e7 & t7 & sc7 & bs7 & Eb7 & Ee7 & Et7 & Es7 & Ebs7 & (B07 & T07 & E07 & I17 & I37 & I27)).
+  pose proof (PM' b7 e7 t7 Eb7 Ee7 Et7) as PMB.
+  match goal with |- nr (bind ?m _) /\ _ => assert (STN : nr m) end.
+  { destruct isOrd; [apply (line_start_nr N); [exact R7 | lia] | apply nr_ok]. }
+  match goal with |- nr (bind ?m _) /\ _ => destruct m as [start'|ex|] eqn:ST'; cbn [bind] end.
+  2:{ exfalso. exact (STN ex eq_refl). }
+  2:{ split; [apply nr_oof | discriminate]. }
+  destruct (py_idx (b_src st7) (pam' - 1)) as [mc'|ex|] eqn:MC'; cbn [bind].
+  2:{ exfalso. exact (nr_py_idx (b_src st7) (pam' - 1) ltac:(lia) ex MC'). }
+  2:{ split; [apply nr_oof | discriminate]. }
+  destruct (negb (mc' =? mc)); [split; [apply nr_ok|]; intros nl t' st' H; injection H as <- <- <-; exact TE7|].
+  destruct (IH st7 isOrd mc (b_line st3) el pam' start' (if negb (b_tight st3) || pee then false else tight) pee' R7 HT7 ltac:(lia) ltac:(lia)) as [NR POST].
+  { destruct TE7 as (_ & _ & _ & _ & _ & _ & X). rewrite X. lia. }
+  { rewrite (fr_line _ _ F7). exact B6. }
+  { exact PM'. }
+  split; [exact NR|]. intros nl t' st' H. exact (tabs_eq_trans _ _ _ TE7 (POST nl t' st' H)).
+Qed.
+
+Lemma r_list_r N rec term (RN : rec_n N rec) (T : term_fr term) (TN : term_nr N term) st sl el silent :
+  pre2 N st sl el -> TI st -> b_line st = sl ->
+  nr (r_list cfg rec term st sl el silent)
+  /\ forall b st', r_list cfg rec term st sl el silent = Ok (b, st') -> tabs_eq st st'.
+Proof.
+  intros (R & S0 & S1 & S2) HTI BLn. assert (Hl : 0 <= sl <= N) by (destruct R as [LM _]; lia).
+  assert (LMN : b_lineMax st <= N) by (destruct R as [LM _]; lia). prologue R Hl.
+  assert (SAME : forall b0 st', Ok (false, st) = Ok (b0, st') \/ Ok (true, st) = Ok (b0, st') -> tabs_eq st st').
+  { intros b0 st' [H|H]; injection H as <- <-; apply tabs_eq_refl. }
+  assert (LS : line_start st sl = Ok (b + t)) by (unfold line_start; rewrite Eb, Et; reflexivity).
+  unfold r_list, code_block_at, is_code_block. rewrite Es. cbn [bind].
+  destruct (c_code cfg && (4 <=? sc - b_blkIndent st)); [split; [apply nr_ok | intros b0 st' H; apply (SAME b0 st'); left; exact H]|].
+  match goal with |- nr (if ?c then _ else _) /\ _ => destruct c end; [split; [apply nr_ok | intros b0 st' H; apply (SAME b0 st'); left; exact H]|].
+  cbv zeta.
+  destruct (skip_ordered_r N st sl R Hl) as [ON OP]. destruct (skip_bullet_r N st sl R Hl) as [BN BP].
+  destruct (skip_ordered st sl) as [pamo|ex|] eqn:SO; cbn [bind].
+  2:{ exfalso. exact (ON ex eq_refl). }
+  2:{ split; [apply nr_oof | discriminate]. }
+  rewrite LS. cbn [bind].
+  match goal with |- nr (bind ?m _) /\ _ => assert (SEL : nr m /\ forall sel, m = Ok sel -> match sel with None => True | Some (_, pam, _) => b + t < pam <= e end) end.
+  { destruct (0 <=? pamo) eqn:P0.
+    - match goal with |- nr (if ?c then _ else _) /\ _ => destruct c end; (split; [apply nr_ok|]); intros sel H; injection H as <-; [exact I|].
+      destruct (OP pamo b e t eq_refl Eb Ee Et); lia.
+    - destruct (skip_bullet st sl) as [pamb|ex|] eqn:SB; cbn [bind].
+      2:{ exfalso. exact (BN ex eq_refl). }
+      2:{ split; [apply nr_oof | discriminate]. }
+      destruct (0 <=? pamb) eqn:P1; (split; [apply nr_ok|]); intros sel H; injection H as <-; [|exact I].
+      destruct (BP pamb b e t eq_refl Eb Ee Et); lia. }
+  destruct SEL as [SN SP].
+  match goal with |- nr (bind ?m _) /\ _ => destruct m as [sel|ex|] eqn:SE; cbn [bind] end.
+  2:{ exfalso. exact (SN ex eq_refl). }
+  2:{ split; [apply nr_oof | discriminate]. }
+  specialize (SP sel eq_refl).
+  destruct sel as [[[isOrd pam] mv]|]; [|split; [apply nr_ok | intros b0 st' H; apply (SAME b0 st'); left; exact H]].
+  rewrite Ee. cbn [bind].
+  match goal with |- nr (if ?c then _ else _) /\ _ => destruct c end; [split; [apply nr_ok | intros b0 st' H; apply (SAME b0 st'); left; exact H]|].
+  destruct (py_idx (b_src st) (pam - 1)) as [mc|ex|] eqn:MC0; cbn [bind].
+  2:{ exfalso. exact (nr_py_idx (b_src st) (pam - 1) ltac:(lia) ex MC0). }
+  2:{ split; [apply nr_oof | discriminate]. }
+  destruct silent; [split; [apply nr_ok | intros b0 st' H; apply (SAME b0 st'); right; exact H]|].
+  match goal with |- context [list_items _ _ _ _ (st_parent ?s1 _)] => set (st1 := s1) in * end.
+  assert (TE1 : tabs_eq st (st_parent st1 nm_list)) by (unfold st1; destruct isOrd; repeat split).
+  destruct (list_items_r N rec term RN T TN (S (Z.to_nat (el - sl))) (st_parent st1 nm_list) isOrd mc sl el pam (b + t) true false) as [LN LP].
+  { exact (tabs_eq_RI _ _ _ TE1 R). } { exact (tabs_eq_TI _ _ TE1 HTI). } { exact S0. } { exact S1. }
+  { rewrite (tabs_eq_lineMax _ _ TE1). exact S2. } { unfold st1. destruct isOrd; exact BLn. }
+  { intros b' e' t' X1 X2 X3. destruct TE1 as (_ & Y2 & Y3 & Y4 & _). rewrite Y2 in X1. rewrite Y3 in X2. rewrite Y4 in X3.
+    rewrite Eb in X1. rewrite Ee in X2. rewrite Et in X3. injection X1 as <-. injection X2 as <-. injection X3 as <-. exact SP. }
+  match goal with |- nr (bind ?m _) /\ _ => destruct m as [[[nextLine tight] st3]|ex|] eqn:LI; cbn [bind] end.
+  2:{ exfalso. exact (LN ex eq_refl). }
+  2:{ split; [apply nr_oof | discriminate]. }
+  pose proof (tabs_eq_trans _ _ _ TE1 (LP _ _ _ eq_refl)) as TE3.
+  split; [apply nr_ok|]. intros b0 st' H. injection H as <- <-.
+  destruct TE3 as (Y1 & Y2 & Y3 & Y4 & Y5 & Y6 & Y7).
+  destruct tight; destruct isOrd; unfold tabs_eq; cbn; repeat split; assumption.
 Qed.
 
 End Rules.
